@@ -29,7 +29,7 @@ CFG = dict(
 
 def _classify(case_line):
     # UpdateChain dropping the ForceProgramming flag of a chain (executed on a live table) somewhere in the history
-    if "force-downgrade" in case_line.get("tags", []):
+    if "force-downgrade" in (case_line.get("tags") or []):
         return "force-downgrade-refcount-leak"
     return None
 
